@@ -177,6 +177,13 @@ class P { x: `note('P', _pos)` >> "c"; y: L }
 '''
 
 
+# template calls whose argument is an unhashable value, a keyword value, a rule: equal calls at one position share one evaluation
+TEMPLATE_ARGS = PRELUDE + '''start = let xs = /[ab]/* in ((Tail(xs) << "!") | (Tail(xs) << "?") | [Tail(xs), Expect(Kw(n=`1`)), Kw(n=`1`)])
+Tail(v) = `note('Tail', _pos)` >> /c*/
+Kw(n) = `note('Kw', _pos)` >> `n`
+'''
+
+
 def part2(tier):
     bad = []
     evals = 0
@@ -231,6 +238,19 @@ def part2(tier):
             if len(log) != len(set(log)):
                 bad.append({'key': f'identity-count|{text}', 'kind': 'spec', 'grammar': IDENTITY, 'input': text,
                             'what': f'a rule body ran twice at one position on {text!r}: {log}'})
+    for gtext in (TEMPLATE_ARGS, 'grammar c07targs\n' + TEMPLATE_ARGS):
+        module, _ = realrun.compile_grammar(gtext)
+        for text in ['abcc?', 'abcc!', 'ab', 'cc', '', 'abc']:
+            del module.LOG[:]
+            try:
+                module.parse(text)
+            except (module.ParseError, module.PartialParseError):
+                pass
+            evals += 1
+            log = list(module.LOG)
+            if len(log) != len(set(log)):
+                bad.append({'key': f'template-args|{text}', 'kind': 'spec', 'grammar': gtext, 'input': text,
+                            'what': f'a template body ran twice at one position for equal arguments on {text!r}: {log}'})
     return evals, nontrivial, samples, bad
 
 
